@@ -78,13 +78,27 @@ var fatalRe = regexp.MustCompile(`(?m)^fatal error: (.*)$`)
 // split into contiguous shards) and merges their parts into c. describe names a case in
 // messages; class gives the signature class of a case (for fatal errors).
 func runIsolated(c *Ctx, handler string, cases []interface{}, class func(i int) string, memLimitMB int) {
+	// Cases are dealt round-robin to the shards (perm maps a shard-order index to the caller's
+	// index) so that the expensive or deadly ones, which are contiguous in the caller's order,
+	// do not all land in one shard.
+	nshards := 16
+	perm := make([]int, 0, len(cases))
+	for s := 0; s < nshards; s++ {
+		for i := s; i < len(cases); i += nshards {
+			perm = append(perm, i)
+		}
+	}
 	raws := make([]json.RawMessage, len(cases))
-	for i, x := range cases {
-		b, err := json.Marshal(x)
+	for j, i := range perm {
+		b, err := json.Marshal(cases[i])
 		if err != nil {
 			panic(err)
 		}
-		raws[i] = b
+		raws[j] = b
+	}
+	if class != nil {
+		orig := class
+		class = func(j int) string { return orig(perm[j]) }
 	}
 	self, _ := os.Executable()
 	base, _ := os.MkdirTemp("/verif/.build", "iso")
@@ -112,7 +126,8 @@ func runIsolated(c *Ctx, handler string, cases []interface{}, class func(i int) 
 			defer wg.Done()
 			from := lo
 			skip := map[int]bool{}
-			for attempt := 0; from < hi && attempt < 200; attempt++ {
+			// every death skips one case for good, so the loop ends after at most hi-lo deaths
+			for attempt := 0; from < hi; attempt++ {
 				dir := filepath.Join(base, fmt.Sprintf("s%d-%d", s, attempt))
 				os.MkdirAll(dir, 0o755)
 				job := isoJob{Prop: c.Property, Part: c.Part.Part, Handler: handler, Thorough: c.Thorough, From: from, Skip: skip, Cases: raws[from:hi], Dir: dir}
